@@ -319,9 +319,12 @@ class Executor:
         if "fn" in k:
             return ("fn", k["fn"], tuple(k.get("args", ())))
         if "v" in k:
+            v = k["v"]
+            if k.get("ty") == "bool":
+                v = bool(v)
             if "uneval" in k:
-                return ("const", k["v"], k["uneval"])
-            return ("const", k["v"])
+                return ("const", v, k["uneval"])
+            return ("const", v)
         if "uneval" in k:
             return ("uneval", k["uneval"], tuple(k.get("uargs", ())))
         if "str" in k:
